@@ -6,6 +6,10 @@
 (* A recording is a sequence of completed calls                            *)
 (*     <<op, a1, a2, ret, allocs, failed, q1, q2>>                         *)
 (*   op      "mov" | "read" | "write" | "acc" | "check"                    *)
+(*           "rt"     current_ptr() followed by set_current_ptr(): the      *)
+(*                    pointer <-> offset conversion the backends use; it   *)
+(*                    must leave the logical pointer where it was          *)
+(*           "checkp" check_ptr(current_ptr() + a1): same answer as check  *)
 (*   a1, a2  arguments (offset / value token, range bounds)                *)
 (*   ret     value token returned by read, 0/1 returned by check           *)
 (*   allocs  allocation requests observed during the call                  *)
@@ -78,7 +82,10 @@ Call ==
           /\ Decide("rejected", <<"returned-from-unsatisfiable-request", l, op, far + Q1(e)>>)
      ELSE
      /\ far' = IF op = "mov" THEN far + Q1(e) ELSE far
-     /\ CASE op = "mov" ->
+     /\ CASE op = "rt" ->
+            /\ AbsMov(0)
+            /\ IF e[5] = 0 THEN Decide("run", why) ELSE Decide("rejected", <<"conversion-allocated", l>>)
+       [] op = "mov" ->
             /\ AbsMov(e[2])
             /\ IF e[5] = 0 THEN Decide("run", why) ELSE Decide("rejected", <<"mov-allocated", l>>)
        [] op = "read" /\ far + Q1(e) # 0 ->
@@ -87,7 +94,7 @@ Call ==
             /\ IF e[4] # 0 THEN Decide("rejected", <<"far-read-mismatch", l, "expected", 0, "observed", e[4]>>)
                ELSE IF e[5] # 0 THEN Decide("rejected", <<"read-allocated", l>>)
                ELSE Decide("run", why)
-       [] op = "check" /\ far + Q1(e) # 0 ->
+       [] op \in {"check", "checkp"} /\ far + Q1(e) # 0 ->
             \* nothing was ever requested there: any answer, but no allocation
             /\ ret' = <<"check", e[4] = 1>> /\ UNCHANGED <<cells, ptr, accLo, accHi>>
             /\ IF e[5] = 0 THEN Decide("run", why) ELSE Decide("rejected", <<"check-allocated", l>>)
@@ -104,7 +111,7 @@ Call ==
             /\ AbsWrite(e[2], e[3]) /\ Decide("run", why)
        [] op = "acc" ->
             /\ AbsMakeAcc(e[2], e[3]) /\ Decide("run", why)
-       [] op = "check" ->
+       [] op \in {"check", "checkp"} ->
             IF Requested(ptr + e[2]) /\ e[4] = 0
             THEN /\ UNCHANGED abs
                  /\ Decide("rejected", <<"requested-cell-reported-inaccessible", l, e[2]>>)
